@@ -208,7 +208,7 @@ class ParameterConfig:
                     child.text = str(int(new_value))
                     return
                 elif child.tag.endswith("dblValue"):
-                    child.text = str(new_value)
+                    child.text = str(float(new_value))
                     return
                 elif child.tag.endswith("description"):
                     pass
